@@ -437,6 +437,17 @@ var tbl = [4]int8{1, -2, 3, 0}
 
 func Tbl(i uint8) int { return int(tbl[i&3])*10 + int(tbl[i]) }
 
+var scale = 3
+
+// package-level variables read inside a loop
+func TblLoop(n uint8) int {
+	s := 0
+	for i := uint8(0); i < n; i++ {
+		s += int(tbl[i]) * scale
+	}
+	return s
+}
+
 func inner(b []byte) (int, error) {
 	x := b[0]
 	if x > 200 {
